@@ -87,7 +87,9 @@ class UtilCase(Case):
             ctx.assume(z3.And(x >= 0, x < (1 << self.bits)))
             sw = {16: utils.swap16, 32: utils.swap32, 64: utils.swap64}.get(self.bits)
             y = it.call(utils.swap, [x, self.bits])
-            ctx.prove("swap/byte-reversal", _norm(z3.And(*[scalars.digit(zint(y), i) == scalars.digit(x, n - 1 - i) for i in range(n)], zint(y) >= 0, zint(y) < (1 << self.bits))))
+            # y is the number whose i-th little-endian byte is byte n-1-i of x (positional form: linear in the digit terms)
+            horner = sum((scalars.digit(x, n - 1 - i) * (256 ** i) for i in range(n)), z3.IntVal(0))
+            ctx.prove("swap/byte-reversal", _norm(z3.And(zint(y) == horner, zint(y) >= 0, zint(y) < (1 << self.bits))))
             z = it.call(utils.swap, [y, self.bits])
             ctx.prove("swap/twice-is-identity", _norm(zint(z) == x))
             if sw:
